@@ -4,6 +4,12 @@
   `GLine {buf, idx : Int}`), are equal to the hand-written functions of Model/Fastlog.lean that C20's theorems are
   about: for every model line `l` (2048-byte buffer, cursor `l.idx`) and every argument,
   `gen<F> (G l) args = liftG (Model.<f> l args)` — same buffer, same cursor, same panics, never out of fuel.
+
+  Go's `int` cursor and the model's `Nat` cursor: `l.index--` is the only statement that could separate them.  In
+  `ByteArray`, `StringArray` and `IPArray` it is directly followed by `appendByte`, so at cursor 0 Go stores at index −1
+  (panic) where the model's `decIdx` panics one step earlier — the same outcome (`dec_append`).  In `appendIP6` it is the
+  last statement; there `ip6Loop_pos` proves that the cursor is ≥ 1 whenever the decrement is executed (the last group was
+  just written with its ':'), so the ties need no hypothesis on the cursor.  `String` steps back only at cursor 2048.
 -/
 import PacketVerif.Lemmas.FastlogLoops
 namespace PV.Props.C20Tie
@@ -182,26 +188,459 @@ theorem uint16Hex_tie (l : Line) (name : Bytes) (v : UInt16) :
   apply val_step; intro t4
   exact appendByte_tie l6 t4
 
+/-- **String** (head, quote, text, step back one byte when the text filled the buffer, quote) -/
+theorem string_tie (l : Line) (name value : Bytes) :
+    genLine_String (G l) name value = liftG (string l name value) := by
+  unfold genLine_String string
+  apply head_step; intro l1
+  rw [appendByte_tie]; apply liftG_bind; intro l2
+  apply copy_step; intro l3
+  simp only [G_upd]
+  have hi : (G l2).idx + ((l3.idx : Int) - (l2.idx : Int)) = (l3.idx : Int) := by simp only [G_idx]; omega
+  rw [hi]
+  by_cases h : l3.idx = bufSize
+  · have h' : (l3.idx : Int) = 2048 := by unfold bufSize at h; omega
+    have hg : ({ buf := l3.buf.1, idx := (l3.idx : Int) - 1 } : GLine) = G ⟨l3.buf, l3.idx - 1⟩ := by
+      unfold bufSize at h; simp only [G]; congr 1; omega
+    rw [if_pos h', if_pos h, hg]
+    exact appendByte_tie _ _
+  · have h' : ¬ (l3.idx : Int) = 2048 := by unfold bufSize at h; omega
+    rw [if_neg h', if_neg h]
+    exact appendByte_tie _ _
+
+/-- the range loop of `ByteArray` from position `pre.length` on renders the remaining bytes -/
+theorem byteArray_loop_eq : ∀ (rest pre : Bytes) (l : Line) (fuel : Nat), rest.length < fuel →
+    genLine_ByteArray_loop1 (pre ++ rest) fuel (pre.length : Int) (G l) = liftG (byteArrayLoop l rest) := by
+  intro rest
+  induction rest with
+  | nil =>
+    intro pre l fuel h
+    cases fuel with
+    | zero => simp at h
+    | succ f =>
+      rw [genLine_ByteArray_loop1]
+      simp [byteArrayLoop]
+  | cons v rest ih =>
+    intro pre l fuel h
+    cases fuel with
+    | zero => simp at h
+    | succ f =>
+      rw [genLine_ByteArray_loop1, byteArrayLoop]
+      have hc : (pre.length : Int) < ((pre ++ v :: rest).length : Int) := by simp; omega
+      simp only [hc, if_true, idxI_append_at, Outcome.bind_ok]
+      rw [writeHex_tie]; apply liftG_bind; intro l1
+      rw [appendByte_tie]; apply liftG_bind; intro l2
+      have := ih (pre ++ [v]) l2 f (by simp at h; omega)
+      simp only [List.append_assoc, List.singleton_append, List.length_append, List.length_singleton] at this
+      rw [← this]; congr 1
+
+theorem G_idx_upd (l l' : Line) : (G l).idx + ((l'.idx : Int) - (l.idx : Int)) = (l'.idx : Int) := by
+  simp only [G_idx]; omega
+theorem G_idx_upd' (l l' : Line) : (l.idx : Int) + ((l'.idx : Int) - (l.idx : Int)) = (l'.idx : Int) := by omega
+theorem G_mk (l : Line) : ({ buf := l.buf.1, idx := (l.idx : Int) } : GLine) = G l := rfl
+
+/-- `l.index--` directly followed by `appendByte`: at cursor 0 Go's index becomes −1 and the store panics; the model's
+    `decIdx` panics one step earlier — the same outcome -/
+theorem dec_append (l : Line) (v : UInt8) :
+    genLine_appendByte { buf := (G l).buf, idx := (G l).idx - 1 } v = liftG (decIdx l >>= fun l => appendByte l v) := by
+  unfold decIdx
+  by_cases h : l.idx = 0
+  · simp [h, genLine_appendByte, setI]
+  · have hg : ({ buf := (G l).buf, idx := (G l).idx - 1 } : GLine) = G ⟨l.buf, l.idx - 1⟩ := by
+      simp only [G]; congr 1; omega
+    rw [if_neg h, hg]; exact appendByte_tie _ _
+
+theorem dec_append_step (l : Line) (v : UInt8) (k : GLine → Outcome GLine) (k' : Line → Outcome Line)
+    (h : ∀ l', k (G l') = liftG (k' l')) :
+    (genLine_appendByte { buf := (G l).buf, idx := (G l).idx - 1 } v >>= k) =
+      liftG (decIdx l >>= fun l => appendByte l v >>= k') := by
+  rw [dec_append, ← bind_assoc]; exact liftG_bind _ _ _ h
+
+theorem baBody_step (l : Line) (name value : Bytes) (tr : Bool) :
+    (do let l ← genLine_appendByte (G l) (32 : UInt8)
+        let (t4, t5) ← copyI l.buf l.idx (l.buf.length : Int) name
+        let l : GLine := { l with buf := t4 }
+        let l : GLine := { l with idx := (l.idx + t5) }
+        let (t6, t7) ← copyI l.buf l.idx (l.buf.length : Int) ([61, 91] : Bytes)
+        let l : GLine := { l with buf := t6 }
+        let l : GLine := { l with idx := (l.idx + t7) }
+        let k1 : Int := (0 : Int)
+        let l ← genLine_ByteArray_loop1 value (value.length + 1) k1 l
+        let l ← (do
+            if ((value.length : Int) > (0 : Int)) then do
+              let l : GLine := { l with idx := (l.idx - (1 : Int)) }
+              pure l
+            else do
+              pure l)
+        let l ← genLine_appendByte l (93 : UInt8)
+        let l ← (do
+            if (tr = true) then do
+              let l : GLine := { l with idx := (2047 : Int) }
+              pure l
+            else do
+              pure l)
+        pure l) = liftG (byteArrayBody l name value tr) := by
+  unfold byteArrayBody
+  rw [appendByte_tie]; apply liftG_bind; intro l1
+  apply copy_step; intro l2
+  simp only [G_idx_upd]
+  apply copy_step l2; intro l3
+  simp only [G_idx_upd', G_mk]
+  have hl := byteArray_loop_eq value [] l3 (value.length + 1) (by omega)
+  simp only [List.nil_append, List.length_nil, Int.natCast_zero] at hl
+  rw [hl]; apply liftG_bind; intro l4
+  by_cases hv : value.length > 0
+  · have hv' : ((value.length : Nat) : Int) > 0 := by omega
+    rw [if_pos hv, if_pos hv']
+    simp only [Outcome.pure_eq, Outcome.bind_ok]
+    apply dec_append_step; intro l5
+    cases tr <;> rfl
+  · have hv' : ¬ ((value.length : Nat) : Int) > 0 := by omega
+    rw [if_neg hv, if_neg hv']
+    simp only [Outcome.pure_eq, Outcome.bind_ok]
+    rw [appendByte_tie]; apply liftG_bind; intro l5
+    cases tr <;> rfl
+
+/-- `copy(l.buffer[cap-10:], "TRUNCATED ")` never panics; both sides produce the same buffer -/
+theorem copyI_trunc (b : Buf) : ∃ b' : Buf, ∃ n : Nat,
+    copyTo b (bufSize - 10) bufSize sTruncated = .ok (b', n) ∧
+    copyI b.1 (2038 : Int) (b.1.length : Int) [84, 82, 85, 78, 67, 65, 84, 69, 68, 32] = .ok (b'.1, (n : Int)) := by
+  refine ⟨b.splice 2038 sTruncated, 10, ?_, ?_⟩
+  · simp [copyTo, bufSize, sTruncated]
+  · simp [copyI, b.2, bufSize, Buf.splice, splice, sTruncated]
+
+/-- `value[:k]` -/
+theorem sliceI_prefix (v : Bytes) (k : Int) :
+    sliceI v 0 k = if k < 0 ∨ k > (v.length : Int) then .panic else .ok (v.take k.toNat) := by
+  unfold sliceI
+  by_cases h : k < 0 ∨ k > (v.length : Int)
+  · have : ¬ ((0 : Int) ≤ 0 ∧ 0 ≤ k ∧ k ≤ (v.length : Int)) := by omega
+    rw [if_pos h, if_neg this]
+  · have : ((0 : Int) ≤ 0 ∧ 0 ≤ k ∧ k ≤ (v.length : Int)) := by omega
+    rw [if_neg h, if_pos this]; simp
+
+/-- **ByteArray** (truncation arithmetic, the "TRUNCATED " marker at the buffer end, the hex loop, the trailing-space
+    step back, `]`, cursor parked at the last byte when truncated) -/
+theorem byteArray_tie (l : Line) (name value : Bytes) :
+    genLine_ByteArray (G l) name value = liftG (byteArray l name value) := by
+  unfold genLine_ByteArray byteArray
+  dsimp only [G_idx, G_buf]
+  have hb : ((bufSize : Nat) : Int) = 2048 := rfl
+  rw [hb]
+  generalize (2048 : Int) - (l.idx : Int) - 1 - (name.length : Int) - 2 = rem
+  by_cases h1 : rem ≤ (value.length : Int) * 3
+  · rw [if_pos h1, if_pos h1]
+    by_cases h2 : rem < 10
+    · rw [if_pos h2, if_pos h2]; rfl
+    · rw [if_neg h2, if_neg h2]
+      obtain ⟨b', n, hc1, hc2⟩ := copyI_trunc l.buf
+      rw [hc1, hc2, sliceI_prefix]
+      simp only [Outcome.bind_ok]
+      by_cases h3 : (rem - 10).tdiv 3 < 0 ∨ (rem - 10).tdiv 3 > (value.length : Int)
+      · rw [if_pos h3, if_pos h3]; rfl
+      · rw [if_neg h3, if_neg h3]
+        exact baBody_step ⟨b', l.idx⟩ name _ true
+  · rw [if_neg h1, if_neg h1]
+    exact baBody_step l name value false
+
+/-! ### appendIP6 -/
+
+/-- the short-circuit test `ip[j*2] != 0x00 || ip[j*2+1] != 0x00` as the generated code evaluates it -/
+theorem groupNonZero_gen (ip : Bytes) (n : Nat) :
+    (do let t3 ← idxI ip (((n : Nat) : Int) * (2 : Int))
+        (if (t3 ≠ (0 : UInt8)) then pure true else (do let t4 ← idxI ip ((((n : Nat) : Int) * (2 : Int)) + (1 : Int)); pure (decide ((t4 ≠ (0 : UInt8))))) : Outcome Bool)) =
+      groupNonZero ip n := by
+  have h1 : ((n : Nat) : Int) * 2 = ((n * 2 : Nat) : Int) := by omega
+  have h2 : ((n : Nat) : Int) * 2 + 1 = ((n * 2 + 1 : Nat) : Int) := by omega
+  rw [h2, h1, idxI_natCast, idxI_natCast]
+  unfold groupNonZero
+  cases idx ip (n * 2) with
+  | ok a =>
+    simp only [Outcome.bind_ok]
+    by_cases ha : a = 0
+    · simp only [ha, ne_eq, not_true_eq_false, if_false, bne_self_eq_false, Bool.false_eq_true]
+      cases idx ip (n * 2 + 1) with
+      | ok b => by_cases hb : b = 0 <;> simp [hb]
+      | _ => rfl
+    · simp [ha]
+  | _ => rfl
+
+theorem gnz_step {β} (ip : Bytes) (n : Nat) (K : Bool → Outcome β) :
+    (do let t3 ← idxI ip (((n : Nat) : Int) * (2 : Int))
+        let c1 ← ((if (t3 ≠ (0 : UInt8)) then pure true else (do let t4 ← idxI ip ((((n : Nat) : Int) * (2 : Int)) + (1 : Int)); pure (decide ((t4 ≠ (0 : UInt8))))) : Outcome Bool))
+        K c1) = (groupNonZero ip n >>= K) := by
+  rw [← groupNonZero_gen, bind_assoc]
+
+/-- inner zero-run loop (`for ; j < 8; j++`), `j = 8 - k` -/
+theorem ip6_loop2_eq (ip : Bytes) (i : Nat) : ∀ (k fuel : Nat) (s e : Int), k ≤ 8 → k < fuel →
+    (genLine_appendIP6_loop2 ip (i : Int) fuel s e ((8 - k : Nat) : Int) >>= fun r => pure (r.1, r.2.1)) =
+      zInner (groupNonZero ip) i k s e := by
+  intro k
+  induction k with
+  | zero =>
+    intro fuel s e _ hf
+    cases fuel with
+    | zero => omega
+    | succ f => rw [genLine_appendIP6_loop2, zInner]; simp
+  | succ k ih =>
+    intro fuel s e hk hf
+    cases fuel with
+    | zero => omega
+    | succ f =>
+      rw [genLine_appendIP6_loop2, zInner]
+      have hj : (((8 - (k + 1) : Nat) : Int) < 8) := by omega
+      rw [if_pos hj]
+      rw [gnz_step, bind_assoc]
+      congr 1; funext c
+      cases c with
+      | true => rfl
+      | false =>
+        have hn : ((8 - (k + 1) : Nat) : Int) + 1 = ((8 - k : Nat) : Int) := by omega
+        simp only [Bool.false_eq_true, if_false, hn]
+        by_cases hz : ((8 - (k + 1) : Nat) : Int) - (i : Int) > 0 ∧ ((8 - (k + 1) : Nat) : Int) - (i : Int) > e - s
+        · simp only [hz, and_self, if_true, Outcome.pure_eq, Outcome.bind_ok]
+          exact ih f _ _ (by omega) (by omega)
+        · simp only [hz, if_false, Outcome.pure_eq, Outcome.bind_ok]
+          exact ih f _ _ (by omega) (by omega)
+
+/-- outer zero-run loop (`for i := 0; i < 8; i++`), `i = 8 - k` -/
+theorem ip6_loop1_eq (ip : Bytes) : ∀ (k fuel : Nat) (s e : Int), k ≤ 8 → k < fuel →
+    genLine_appendIP6_loop1 ip fuel s e ((8 - k : Nat) : Int) = zOuter (groupNonZero ip) k s e := by
+  intro k
+  induction k with
+  | zero =>
+    intro fuel s e _ hf
+    cases fuel with
+    | zero => omega
+    | succ f => rw [genLine_appendIP6_loop1, zOuter]; simp
+  | succ k ih =>
+    intro fuel s e hk hf
+    cases fuel with
+    | zero => omega
+    | succ f =>
+      rw [genLine_appendIP6_loop1, zOuter]
+      have hj : (((8 - (k + 1) : Nat) : Int) < 8) := by omega
+      rw [if_pos hj]
+      have hfuel : ((8 : Int) - ((8 - (k + 1) : Nat) : Int)).toNat + 1 = k + 1 + 1 := by omega
+      have hn : ((8 - (k + 1) : Nat) : Int) + 1 = ((8 - k : Nat) : Int) := by omega
+      have h2 := ip6_loop2_eq ip (8 - (k + 1)) (k + 1) (k + 1 + 1) s e hk (by omega)
+      simp only [hfuel, hn]
+      rw [← h2, bind_assoc]
+      congr 1; funext r
+      simp only [Outcome.pure_eq, Outcome.bind_ok]
+      exact ih f _ _ (by omega) (by omega)
+
+/-- one rendered group: `if ip[i*2] != 0 { NLZ(ip[i*2]); writeHex(ip[i*2+1]) } else { NLZ(ip[i*2+1]) }; ':'` -/
+theorem ip6Group_step (l : Line) (ip : Bytes) (n : Nat) (K : GLine → Outcome GLine) (K' : Line → Outcome Line)
+    (h : ∀ l', K (G l') = liftG (K' l')) :
+    (do let l ← (do
+            let t5 ← idxI ip (((n : Nat) : Int) * (2 : Int))
+            if (t5 ≠ (0 : UInt8)) then do
+              let t6 ← idxI ip (((n : Nat) : Int) * (2 : Int))
+              let l ← genLine_writeHexNoleadingZeros (G l) t6
+              let t7 ← idxI ip ((((n : Nat) : Int) * (2 : Int)) + (1 : Int))
+              let l ← genLine_writeHex l t7
+              pure l
+            else do
+              let t8 ← idxI ip ((((n : Nat) : Int) * (2 : Int)) + (1 : Int))
+              let l ← genLine_writeHexNoleadingZeros (G l) t8
+              pure l)
+        let l ← genLine_appendByte l (58 : UInt8)
+        K l) = liftG (ip6Group l ip n >>= K') := by
+  have h1 : ((n : Nat) : Int) * 2 = ((n * 2 : Nat) : Int) := by omega
+  have h2 : ((n : Nat) : Int) * 2 + 1 = ((n * 2 + 1 : Nat) : Int) := by omega
+  rw [h2, h1, idxI_natCast, idxI_natCast]
+  unfold ip6Group
+  cases hx : idx ip (n * 2) with
+  | ok hi =>
+    simp only [Outcome.bind_ok]
+    by_cases hz : hi = 0
+    · subst hz
+      have hb : ((0 : UInt8) != 0) = false := by decide
+      simp only [ne_eq, not_true_eq_false, if_false, hb, Bool.false_eq_true, PV.Lemmas.FastlogLoops.bind_assoc]
+      apply val_step; intro lo
+      rw [writeHexNLZ_tie]; apply liftG_bind; intro l1
+      rw [appendByte_tie]; exact liftG_bind _ _ _ h
+    · have hb : (hi != 0) = true := by simp [hz]
+      simp only [ne_eq, hz, not_false_eq_true, if_true, hb, PV.Lemmas.FastlogLoops.bind_assoc]
+      rw [writeHexNLZ_tie]; apply liftG_bind; intro l1
+      apply val_step; intro lo
+      rw [writeHex_tie]; apply liftG_bind; intro l2
+      rw [appendByte_tie]; exact liftG_bind _ _ _ h
+  | panic => rfl
+  | err e => rfl
+  | hang => rfl
+
+/-- rendering loop (`for i := 0; i < 8; i++` with the two `continue`s), `i = 8 - k` -/
+theorem ip6_loop3_eq (ip : Bytes) (s e : Int) : ∀ (k fuel : Nat) (l : Line), k ≤ 8 → k < fuel →
+    genLine_appendIP6_loop3 ip s e fuel (G l) ((8 - k : Nat) : Int) = liftG (ip6Loop ip s e k l) := by
+  intro k
+  induction k with
+  | zero =>
+    intro fuel l _ hf
+    cases fuel with
+    | zero => omega
+    | succ f => rw [genLine_appendIP6_loop3, ip6Loop]; simp
+  | succ k ih =>
+    intro fuel l hk hf
+    cases fuel with
+    | zero => omega
+    | succ f =>
+      rw [genLine_appendIP6_loop3, ip6Loop]
+      have hj : (((8 - (k + 1) : Nat) : Int) < 8) := by omega
+      rw [if_pos hj]
+      have hn : ((8 - (k + 1) : Nat) : Int) + 1 = ((8 - k : Nat) : Int) := by omega
+      simp only [hn]
+      have hrec : ∀ l', genLine_appendIP6_loop3 ip s e f (G l') ((8 - k : Nat) : Int) = liftG (ip6Loop ip s e k l') :=
+        fun l' => ih f l' (by omega) (by omega)
+      by_cases h1 : ((8 - (k + 1) : Nat) : Int) = s
+      · rw [if_pos h1, if_pos h1]
+        by_cases h0 : s = 0
+        · rw [if_pos h0, if_pos h0]
+          rw [appendByte_tie]; apply liftG_bind; intro l1
+          rw [appendByte_tie]; exact liftG_bind _ _ _ hrec
+        · rw [if_neg h0, if_neg h0]
+          simp only [Outcome.pure_eq, Outcome.bind_ok]
+          rw [appendByte_tie]; exact liftG_bind _ _ _ hrec
+      · rw [if_neg h1, if_neg h1]
+        by_cases h2 : ((8 - (k + 1) : Nat) : Int) ≥ s ∧ ((8 - (k + 1) : Nat) : Int) ≤ e
+        · rw [if_pos h2, if_pos h2]; exact hrec l
+        · rw [if_neg h2, if_neg h2]
+          exact ip6Group_step l ip _ _ _ hrec
+
+theorem bind_eq_ok {α β} {x : Outcome α} {f : α → Outcome β} {b : β} (h : (x >>= f) = .ok b) :
+    ∃ a, x = .ok a ∧ f a = .ok b := by
+  cases x with
+  | ok a => exact ⟨a, rfl, h⟩
+  | panic => exact absurd h (by simp)
+  | err e => exact absurd h (by simp)
+  | hang => exact absurd h (by simp)
+
+theorem appendByte_pos {l l' : Line} {v : UInt8} (h : appendByte l v = .ok l') : 1 ≤ l'.idx := by
+  unfold appendByte at h
+  split at h
+  · cases h; simp
+  · cases h
+
+theorem ip6Group_pos {l l' : Line} {ip : Bytes} {i : Nat} (h : ip6Group l ip i = .ok l') : 1 ≤ l'.idx := by
+  unfold ip6Group at h
+  obtain ⟨_, _, h⟩ := bind_eq_ok h
+  dsimp only at h
+  split at h
+  · obtain ⟨_, _, h⟩ := bind_eq_ok h
+    obtain ⟨_, _, h⟩ := bind_eq_ok h
+    obtain ⟨_, _, h⟩ := bind_eq_ok h
+    exact appendByte_pos h
+  · obtain ⟨_, _, h⟩ := bind_eq_ok h
+    obtain ⟨_, _, h⟩ := bind_eq_ok h
+    exact appendByte_pos h
+
+/-- **the cursor invariant behind the trailing `l.index--` of `appendIP6`**: when the last group is not elided
+    (`endZ < 7`) the rendering loop has written at least one byte (the last iteration ends with `appendByte(':')`), so the
+    decrement never takes the cursor below zero — Go's `int` cursor and the model's `Nat` cursor agree -/
+theorem ip6Loop_pos (ip : Bytes) (s e : Int) (he : e < 7) : ∀ (k : Nat), 1 ≤ k → k ≤ 8 → ∀ (l l' : Line),
+    ip6Loop ip s e k l = .ok l' → 1 ≤ l'.idx := by
+  intro k
+  induction k with
+  | zero => intro h; omega
+  | succ k ih =>
+    intro _ hk l l' h
+    have hlast : ∀ l1 : Line, 1 ≤ l1.idx → ip6Loop ip s e k l1 = .ok l' → 1 ≤ l'.idx := by
+      intro l1 h1 hl
+      cases k with
+      | zero => rw [ip6Loop] at hl; cases hl; exact h1
+      | succ k' => exact ih (by omega) (by omega) l1 l' hl
+    rw [ip6Loop] at h
+    dsimp only at h
+    split at h
+    · split at h
+      · obtain ⟨l1, _, h⟩ := bind_eq_ok h
+        obtain ⟨l2, h2, h⟩ := bind_eq_ok h
+        exact hlast l2 (appendByte_pos h2) h
+      · obtain ⟨l1, _, h⟩ := bind_eq_ok h
+        obtain ⟨l2, h2, h⟩ := bind_eq_ok h
+        exact hlast l2 (appendByte_pos h2) h
+    · split at h
+      · rename_i hskip
+        cases k with
+        | zero => omega
+        | succ k' => exact ih (by omega) (by omega) l l' h
+      · obtain ⟨l1, h1, h⟩ := bind_eq_ok h
+        exact hlast l1 (ip6Group_pos h1) h
+
+/-- **appendIP6** (fastlog's own RFC 5952 writer): the nested zero-run search with `break`, the rendering loop with its two
+    `continue`s, and the trailing `l.index--` — for every line and every byte string -/
+theorem appendIP6_tie (l : Line) (ip : Bytes) : genLine_appendIP6 (G l) ip = liftG (appendIP6 l ip) := by
+  unfold genLine_appendIP6 appendIP6
+  by_cases hlen : ip.length ≠ 16
+  · have hlen' : ((ip.length : Nat) : Int) ≠ 16 := by omega
+    rw [if_pos hlen, if_pos hlen']
+    exact copy_last l sNil
+  · have hlen' : ¬ ((ip.length : Nat) : Int) ≠ 16 := by omega
+    rw [if_neg hlen, if_neg hlen']
+    have h1 := ip6_loop1_eq ip 8 9 (-1) (-1) (by omega) (by omega)
+    have hf : ((8 : Int) - (0 : Int)).toNat + 1 = 9 := by decide
+    dsimp only
+    rw [hf]
+    have h80 : (((8 - 8 : Nat) : Nat) : Int) = (0 : Int) := by decide
+    rw [h80] at h1
+    rw [h1]
+    apply val_step; intro se
+    obtain ⟨s0, e⟩ := se
+    dsimp only
+    generalize hs : (if e = s0 then (99 : Int) else s0) = s
+    have hs' : ((if e = s0 then pure 99 else pure s0) : Outcome Int) = .ok s := by
+      rw [← hs]; split <;> rfl
+    rw [hs', Outcome.bind_ok]
+    have h3 := ip6_loop3_eq ip s e 8 9 l (by omega) (by omega)
+    rw [h80] at h3
+    rw [h3]
+    cases hl : ip6Loop ip s e 8 l with
+    | ok l' =>
+      simp only [liftG_ok, Outcome.bind_ok]
+      by_cases he : e < 7
+      · have hp := ip6Loop_pos ip s e he 8 (by omega) (by omega) l l' hl
+        have hne : ¬ l'.idx = 0 := by omega
+        rw [if_pos he, if_pos he, decIdx, if_neg hne]
+        simp only [Outcome.pure_eq, liftG_ok, G]
+        congr 2; omega
+      · rw [if_neg he, if_neg he]; rfl
+    | panic => rfl
+    | err x => rfl
+    | hang => rfl
+
 /-- every method of `*fastlog.Line` is a candidate; these are the ones the translator expresses -/
 theorem translated_accounted : fastlogLoopsTranslated.map (·.1) =
-    ["fastlog.(*Line).Bool", "fastlog.(*Line).ByteArray", "fastlog.(*Line).Bytes", "fastlog.(*Line).LF",
-     "fastlog.(*Line).Label", "fastlog.(*Line).MAC", "fastlog.(*Line).String", "fastlog.(*Line).Uint16",
+    ["fastlog.(*Line).Bool", "fastlog.(*Line).ByteArray", "fastlog.(*Line).Bytes", "fastlog.(*Line).Duration",
+     "fastlog.(*Line).Error", "fastlog.(*Line).IP", "fastlog.(*Line).IPArray", "fastlog.(*Line).IPSlice",
+     "fastlog.(*Line).Int", "fastlog.(*Line).LF", "fastlog.(*Line).Label", "fastlog.(*Line).MAC",
+     "fastlog.(*Line).Module", "fastlog.(*Line).String", "fastlog.(*Line).StringArray", "fastlog.(*Line).Uint16",
      "fastlog.(*Line).Uint16Hex", "fastlog.(*Line).Uint32", "fastlog.(*Line).Uint8", "fastlog.(*Line).Uint8Hex",
-     "fastlog.(*Line).appendByte", "fastlog.(*Line).appendIP6", "fastlog.(*Line).printInt",
+     "fastlog.(*Line).appendByte", "fastlog.(*Line).appendIP6", "fastlog.(*Line).newModule", "fastlog.(*Line).printInt",
      "fastlog.(*Line).writeHex", "fastlog.(*Line).writeHexNoleadingZeros"] := by decide
 
-/-- … and these are refused (interface / time / netip / []string / []net.IP parameters, `nil` comparisons, a three-argument
-    `make`, results other than the receiver): they stay tied by the correspondence run only -/
+/-- … and these are refused (interface / time.Time parameters whose text the standard library produces by reflection or
+    formatting, results other than the receiver, the buffer pool): they stay tied by the correspondence run only -/
 theorem untranslated_accounted : fastlogLoopsUntranslated.map (·.1) =
-    ["fastlog.(*Line).Duration", "fastlog.(*Line).Error", "fastlog.(*Line).IP", "fastlog.(*Line).IPArray",
-     "fastlog.(*Line).IPSlice", "fastlog.(*Line).Int", "fastlog.(*Line).Module", "fastlog.(*Line).Sprintf",
-     "fastlog.(*Line).StringArray", "fastlog.(*Line).Stringer", "fastlog.(*Line).Struct", "fastlog.(*Line).Time",
-     "fastlog.(*Line).ToString", "fastlog.(*Line).Write", "fastlog.(*Line).newModule"] := by decide
+    ["fastlog.(*Line).Sprintf", "fastlog.(*Line).Stringer", "fastlog.(*Line).Struct", "fastlog.(*Line).Time",
+     "fastlog.(*Line).ToString", "fastlog.(*Line).Write"] := by decide
+
+/-- the standard-library callees the translator replaced by the model function that mirrors them (reviewed list) -/
+theorem callees_accounted : loopCallees.map (·.1) =
+    ["(error).Error", "(net.IP).To4", "(net/netip.Addr).AppendTo", "(net/netip.Addr).IsValid", "(time.Duration).String",
+     "strconv.AppendInt"] := by decide
 
 /-- non-vacuity: on an empty 2048-byte line the regenerated `Uint16("p", 443)` writes ` p=443` and moves the cursor to 6 -/
 example : (genLine_Uint16 (G ⟨Buf.fill 0, 0⟩) [0x70] 443) =
     liftG (uint16 ⟨Buf.fill 0, 0⟩ [0x70] 443) := uint16_tie _ _ _
 /-- non-vacuity: at a full buffer the regenerated `appendByte` panics, as the model does -/
 example : genLine_appendByte (G ⟨Buf.fill 0, 2048⟩) 1 = .panic := by rw [appendByte_tie]; rfl
+
+/-- non-vacuity: the regenerated `appendIP6` of `2001:db8::1` on an empty line equals the model's rendering (and is not a panic) -/
+example : genLine_appendIP6 (G ⟨Buf.fill 0, 0⟩) [0x20, 0x01, 0x0d, 0xb8, 0, 0, 0, 0, 0, 0, 0, 0, 0, 0, 0, 1] =
+    liftG (appendIP6 ⟨Buf.fill 0, 0⟩ [0x20, 0x01, 0x0d, 0xb8, 0, 0, 0, 0, 0, 0, 0, 0, 0, 0, 0, 1]) := appendIP6_tie _ _
+/-- non-vacuity: `ByteArray` with 20 bytes left truncates (marker at the buffer end, cursor parked at 2047) in both -/
+example : genLine_ByteArray (G ⟨Buf.fill 0, 2028⟩) [0x61] [1, 2, 3, 4, 5, 6, 7, 8] =
+    liftG (byteArray ⟨Buf.fill 0, 2028⟩ [0x61] [1, 2, 3, 4, 5, 6, 7, 8]) := byteArray_tie _ _ _
 
 end PV.Props.C20Tie
